@@ -738,14 +738,18 @@ def apply (st : State) : Op → State × List Frame
 
 /-- does the operation end with a `cc.cond.Broadcast()` (which is what lets a `RoundTrip`
 blocked in `awaitOpenSlotForStreamLocked` look again)? A stream was forgotten or aborted, a
-WINDOW_UPDATE was applied, or SETTINGS_INITIAL_WINDOW_SIZE was processed. (A SETTINGS frame
-that only raises MAX_CONCURRENT_STREAMS does not wake the waiter.) -/
-def wakes (st st1 : State) : Op → Bool
+WINDOW_UPDATE was applied, or SETTINGS_INITIAL_WINDOW_SIZE was processed. (Unchanged code: a
+SETTINGS frame that only raises the stream limit does not wake the waiter.) -/
+def wakes (st st1 : State) (op : Op) : Bool :=
+  match op with
   | .peer (.windowUpdate id _) =>
     id == 0 || (match findStream st.streams id with | some s => s.live | none => false)
   | .peer (.settings vals) =>
+    -- SETTINGS_INITIAL_WINDOW_SIZE processed; with C06-9 also: the stream limit went up
+    -- (SETTINGS_MAX_CONCURRENT_STREAMS raised, or the first SETTINGS frame replacing the initial
+    -- 100 by the default 1000)
     vals.any (·.1 == sInitialWindowSize) ||
-    (st.cfg.fixes.mcsWake && vals.any (·.1 == sMaxConcurrentStreams))
+    (st.cfg.fixes.mcsWake && decide (st.maxConcurrent < st1.maxConcurrent))
   | .wake => true
   -- `transportResponseBody.Close` calls `abortStream` (which broadcasts) even when the stream
   -- has long left `cc.streams`
